@@ -67,7 +67,7 @@ def main():
     whole = not sys.argv[1:]
     ids = sys.argv[1:] or sorted(os.path.basename(os.path.dirname(x)) for x in glob.glob(os.path.join(VERIF, "seeded", "*", "patch.diff")))
     res = {}
-    with Pool(8) as pool:
+    with Pool(16) as pool:
         for sid, pid, st, what in pool.imap_unordered(one, ids):
             res[sid] = (pid, st, what)
     bad = 0
